@@ -213,6 +213,8 @@ type KnownRegion struct {
 type Exec struct {
 	P      *Program
 	Solver *sym.Solver
+	Cross  *sym.Solver
+	CrossQ, CrossUnknown int
 	pc     []*T
 	prefix []int32
 	trace  []int32
@@ -419,6 +421,22 @@ func (e *Exec) domCheck(c *T) int {
 
 // feasible asks whether pc ∧ c is satisfiable (unknown counts as feasible).
 func (e *Exec) feasible(c *T) bool {
+	ok := e.feasible0(c)
+	if !ok && e.Cross != nil && !c.IsFalse() {
+		// a pruned branch loses paths if the verdict is wrong: the second back end re-decides every
+		// "infeasible" (whether it came from the byte tables, the known-value substitution or z3)
+		e.CrossQ++
+		switch e.Cross.Check(e.pc, c) {
+		case sym.Sat:
+			e.Undischarged = append(e.Undischarged, fmt.Sprintf("branch pruned as infeasible is satisfiable according to %s (in %s)", e.Cross.Kind, e.curFn))
+		case sym.Unknown:
+			e.CrossUnknown++
+		}
+	}
+	return ok
+}
+
+func (e *Exec) feasible0(c *T) bool {
 	if c.IsTrue() {
 		return true
 	}
@@ -1003,6 +1021,17 @@ func (e *Exec) fail(bad *T, msg string) (violated bool, unknown bool) {
 		outside = sym.And(outside, sym.Not(t))
 	}
 	r, model := e.Solver.CheckModel(e.pc, outside, e.inputs)
+	if e.Cross != nil {
+		// the same obligation, decided again by an independent back end
+		r2 := e.Cross.Check(e.pc, outside)
+		e.CrossQ++
+		switch {
+		case r2 == sym.Unknown:
+			e.CrossUnknown++
+		case r != sym.Unknown && r2 != r:
+			e.Undischarged = append(e.Undischarged, fmt.Sprintf("solvers disagree (%s: %v, %s: %v): %s", e.Solver.Kind, r, e.Cross.Kind, r2, msg))
+		}
+	}
 	switch r {
 	case sym.Sat:
 		e.Violations = append(e.Violations, e.witness("violation", msg, model))
@@ -1066,6 +1095,7 @@ type PathResult struct {
 	PanicMsg     string
 	KnownHits    []*Witness
 	Traces       map[string][]TraceEvent
+	CrossQ, CrossUnknown int
 }
 
 // Harness options
@@ -1076,11 +1106,13 @@ type Opts struct {
 	Params                      map[string]int
 	Known                       []KnownRegion
 	BoundIsViolation            bool
+	CrossKind                   string      // second back end that re-decides every obligation ("" = none)
+	cross                       *sym.Solver // per worker
 }
 
 // RunPath executes harness fn along the given decision prefix.
 func RunPath(p *Program, solver *sym.Solver, fn *ssa.Function, prefix []int32, o Opts) (res *PathResult) {
-	e := &Exec{P: p, Solver: solver, prefix: prefix, globals: map[*ssa.Global]*Obj{}, cloneMemo: map[*Obj]*Obj{}, cloneMapMemo: map[*Map]*Map{},
+	e := &Exec{P: p, Solver: solver, Cross: o.cross, prefix: prefix, globals: map[*ssa.Global]*Obj{}, cloneMemo: map[*Obj]*Obj{}, cloneMapMemo: map[*Map]*Map{},
 		MaxSteps: o.MaxSteps, MaxDepth: o.MaxDepth, MaxLoop: o.MaxLoop, MapOrderSymbolic: o.MapOrderSymbolic, inputNames: map[string]int{},
 		funcsSeen: map[string]bool{}, harness: fn.Name(), fixed: map[string]uint64{}, Known: o.Known, dom: map[string]*byteDom{}, multiVar: map[string]bool{}, known: map[string]uint64{}, pcVars: map[string]bool{}, sumBad: map[*ssa.Function]bool{}, writeLog: map[*Obj]bool{}, mapWrites: map[*Map]bool{}, Params: o.Params, Ext: map[string]interface{}{}}
 	res = &PathResult{Prefix: prefix}
@@ -1092,6 +1124,7 @@ func RunPath(p *Program, solver *sym.Solver, fn *ssa.Function, prefix []int32, o
 		res.Discharged = e.Discharged
 		res.Violations = e.Violations
 		res.Undischarged = e.Undischarged
+		res.CrossQ, res.CrossUnknown = e.CrossQ, e.CrossUnknown
 		res.Funcs = e.funcsSeen
 		defer func() { res.KnownHits = e.KnownHits; res.Obligations = e.Obligations; res.Traces = e.Traces }()
 		switch x := r.(type) {
@@ -1172,6 +1205,8 @@ type Stats struct {
 	SolverErrors  []string
 	Wall          time.Duration
 	PathLimitHit  bool
+	CrossQ, CrossUnknown int
+	CrossTime     time.Duration
 }
 
 // Explore runs the harness over all decision prefixes with nWorkers workers.
@@ -1200,6 +1235,23 @@ func Explore(p *Program, harness string, o Opts, nWorkers int, solverKind string
 				return
 			}
 			defer solver.Close()
+			var cross *sym.Solver
+			if o.CrossKind != "" {
+				cross, err = sym.NewSolver(o.CrossKind, timeoutMs)
+				if err != nil {
+					mu.Lock()
+					firstErr = err
+					mu.Unlock()
+					return
+				}
+				defer cross.Close()
+				if f := os.Getenv("GOSYM_CROSSLOG"); f != "" {
+					if fh, err := os.Create(fmt.Sprintf("%s.%p", f, cross)); err == nil {
+						cross.Log = fh
+						defer fh.Close()
+					}
+				}
+			}
 			for {
 				mu.Lock()
 				for len(queue) == 0 && active > 0 {
@@ -1222,6 +1274,7 @@ func Explore(p *Program, harness string, o Opts, nWorkers int, solverKind string
 				mu.Unlock()
 				oo := o
 				oo.WantReach = wantReach
+				oo.cross = cross
 				res := RunPath(p, solver, fn, pre, oo)
 				mu.Lock()
 				active--
@@ -1231,6 +1284,8 @@ func Explore(p *Program, harness string, o Opts, nWorkers int, solverKind string
 				st.Steps += int64(res.Steps)
 				st.Obligations += res.Obligations
 				st.Discharged += res.Discharged
+				st.CrossQ += res.CrossQ
+				st.CrossUnknown += res.CrossUnknown
 				st.Violations = append(st.Violations, res.Violations...)
 				st.KnownHits = append(st.KnownHits, res.KnownHits...)
 				for tn, tr := range res.Traces {
@@ -1264,6 +1319,10 @@ func Explore(p *Program, harness string, o Opts, nWorkers int, solverKind string
 			st.Queries += solver.Queries
 			st.SolverTime += solver.Time
 			st.SolverErrors = append(st.SolverErrors, solver.Errors...)
+			if cross != nil {
+				st.CrossTime += cross.Time
+				st.SolverErrors = append(st.SolverErrors, cross.Errors...)
+			}
 			mu.Unlock()
 		}()
 	}
